@@ -9,7 +9,7 @@ ALPHA = Alphabet(
     max_ctx=3,
     add=[((T0,), "a", "ok"), ((T0, T1), "a", "ok"), ((T1,), "a", "ok")],
     fac=[((T0,), "a", False, "ok"), ((T0, T1), "a", False, "ok")],
-    look=[(T0, "a", "nowait"), (T1, "a", "nowait"), (T0, "a", "await"), (T1, "a", "inject_sync")],
+    look=[(T0, "a", "nowait"), (T1, "a", "nowait"), (T0, "a", "await"), (T1, "a", "inject_sync"), (T0, "a", "inject_sync_opt")],
     visit=True,
     deferred=True,
 )
@@ -18,7 +18,7 @@ ALPHA_T = Alphabet(
     max_ctx=3,
     add=[((T0,), "a", "ok"), ((T0, T1), "a", "ok"), ((T0,), "b", "ok")],
     fac=[((T0,), "a", False, "ok"), ((T0, T1), "a", True, "ok")],
-    look=[(T0, "a", "nowait"), (T1, "a", "await"), (T0, "a", "inject_async"), (T0, "b", "shortcut_nowait")],
+    look=[(T0, "a", "nowait"), (T1, "a", "await"), (T0, "a", "inject_async"), (T0, "b", "shortcut_nowait"), (T1, "a", "inject_sync_opt"), (T0, "a", "inject_async_opt")],
     visit=True,
     deferred=True,
 )
@@ -60,7 +60,7 @@ R = Harness(
     bound_text=lambda tier: (
         "histories of 3 operations over <=3 contexts (any tree shape), 1 name, 2 types; ops: create_child(p) - entered at once, or constructed now and "
         "entered only after the next operation -, a task temporarily entering and leaving a Context with an explicit other parent, add_resource(T0 | T0+T1), "
-        "add_resource_factory(T0 | T0+T1, sync), lookup(T0|T1 via nowait/await/inject) -- then generating probes of every key in every context"
+        "add_resource_factory(T0 | T0+T1, sync), lookup(T0|T1 via nowait/await/inject, incl. a sync injected Optional[T0] parameter) -- then generating probes of every key in every context"
         if tier == "quick"
         else "histories of 3 operations over <=3 contexts, 2 names, 2 types; ops: create_child(p), add_resource(T0/a | T0+T1/a | T0/b), "
         "add_resource_factory(T0 sync | T0+T1 async), lookup via nowait/await/inject_async/shortcut -- then generating probes"
@@ -258,3 +258,93 @@ ALIAS = Harness(
     stubs=STUBS_COMMON,
 )
 HARNESSES += [ADDRACE, ALIAS]
+
+
+# ------------------------------------------------------------------------------ K-task
+def task_params(tier):
+    return [P("kind", 0, 1), P("spawn_late", 0, 1), P("via", 0, 1)]
+
+
+@guard
+def task_fn(a, tier):
+    """A task factory / service task started on the application context from inside a request context: its tasks see the
+    application context's resources of that moment - nothing of the request context, nothing added later."""
+    from asphalt.core import current_context, get_resources
+
+    kind, spawn_late, via = pick(a["kind"], 2), pick(a["spawn_late"], 2), pick(a["via"], 2)
+    out = {}
+    app_res, secret, later = object(), object(), object()
+
+    async def job():
+        ctx = current_context()
+        out["sees"] = [dict(get_resources(RT[i])) for i in range(3)]
+        chain = []
+        c = ctx
+        while c is not None:
+            chain.append(c)
+            c = c.parent
+        out["chain"] = chain
+
+    async def main():
+        async with Context() as app:
+            out["app"] = app
+            app.add_resource(app_res, "app", [RT[0]])
+            async with Context() as request:
+                out["request"] = request
+                request.add_resource(secret, "secret", [RT[1]])
+                if kind == 0:
+                    tf = await (app.start_background_task_factory() if via == 0 else _started_from(app))
+                    app.add_resource(later, "later", [RT[2]])
+                    if not spawn_late:
+                        await (await tf.start_task(job, "job")).wait_finished()
+                else:
+                    app.add_resource(later, "later", [RT[2]]) if spawn_late else None
+                    await app.start_service_task(job, "job")
+                    await anyio.sleep(0)
+            if kind == 0 and spawn_late:
+                await (await tf.start_task(job, "job")).wait_finished()
+
+    async def _started_from(app):
+        # the same call made from a task of its own whose current context is the request context
+        res = {}
+
+        async def starter():
+            res["tf"] = await app.start_background_task_factory()
+
+        async with anyio.create_task_group() as tg:
+            tg.start_soon(starter)
+        return res["tf"]
+
+    _, exc, _k = run(main)
+    summary = {"started_on_the_application_context_from_inside_a_request_context": ["task factory", "service task"][kind],
+               "task_spawned": "after the request context was closed" if (spawn_late and kind == 0) else "while the request context was open",
+               "call_made_from": ["the request block itself", "a task spawned inside the request block"][via]}
+    if exc is not None:
+        return FAIL(f"task:raised:{type(exc).__name__}:kind={kind}", repr(exc), summary)
+    sees = out.get("sees")
+    if sees is None:
+        return FAIL("task:never-ran", "", summary)
+    exp_later = {"later": later} if (kind == 1 and spawn_late) else {}
+    if sees[0] != {"app": app_res} or sees[1] != {} or sees[2] != exp_later:
+        what = "sees-the-request-contexts-resource" if sees[1] else "wrong-snapshot-of-the-application-context"
+        return FAIL(f"task:{what}:kind={kind}", f"{sees}", summary)
+    if out["request"] in out["chain"] or out["app"] not in out["chain"]:
+        return FAIL(f"task:context-descends-from-the-request-context:kind={kind}", "", summary)
+    return OK(summary, True)
+
+
+KTASK = Harness(
+    prop="C02",
+    name="K-task",
+    fn=task_fn,
+    params=task_params,
+    cube=lambda tier: 0,
+    title="tasks of a task factory / a service task started on the application context through its METHODS while a request context is current",
+    bound_text=lambda tier: "task factory or service task x started from the request block / from a task spawned in it x task spawned while the request "
+    "context is open / after it was closed; the request context holds a private resource, the application context gets another resource after the start",
+    oracle="the task's context descends from the application context and not from the request context; it sees exactly the application context's resources "
+    "of the moment the factory / service was started",
+    outside="-",
+    stubs=STUBS_COMMON,
+)
+HARNESSES.append(KTASK)
